@@ -156,6 +156,7 @@ class Run:
 
 
 RUN = None
+BETWEEN = None
 DEFAULT_SCRIPT = {"a": [], "r": None}
 
 
@@ -179,6 +180,8 @@ def _enter(p, kind, k, isg, kw):
     R.count[(tag,) + key] = n + 1
     scripts, dflt = R.tbl.get(key, ([], DEFAULT_SCRIPT))
     script = scripts[n] if n < len(scripts) else dflt
+    if tag in getattr(R, "mute_tags", ()):
+        return R, dict(script, a=[a for a in script["a"] if a[0] != "raise"]), m    # unrelated machine (C16): not logged
     R.log.append(["c", p, kind, k, bool(isg), evidx(kw.get("event")), sidx(kw.get("source")),
                   sidx(kw.get("target")), sidx(kw.get("state")), R.csv(m), kw.get("tag", 0) or 0,
                   0 if isg else _depth()])
@@ -533,6 +536,8 @@ def run_impl(sc):
                     return None
                 raise ValueError(op)
 
+            if BETWEEN is not None:
+                BETWEEN(ns, 0)                    # unrelated activity before the first operation (C16)
             for op in sc["ops"]:
                 R.log = []
                 try:
@@ -567,6 +572,9 @@ def run_impl(sc):
                 obs.append({"out": out, "field": field, "allowed": allowed, "log": R.log})
                 if op[0] == "construct" and out[0] == "x":
                     break
+                if BETWEEN is not None:
+                    R.log = []
+                    BETWEEN(ns, len(obs))         # unrelated activity between two operations (C16)
             return obs
 
         workers = _Workers(3) if driver == "threads" else None
